@@ -134,7 +134,7 @@ def _r1(ctx, oa):
         if b.is_closure and b.path in covered:
             continue
         cfg = CFG(b)
-        dbg = debug_only_blocks(b, cfg)
+        dbg = debug_only_blocks(b, cfg, ctx.facts)
         tr = None
         for bi in sorted(cfg.reach):
             bb = b.blocks[bi]
@@ -165,6 +165,7 @@ def _r1(ctx, oa):
                 if len(rep.samples) < 30:
                     rep.sample('%s: %s — discharged: %s' % (loc, sig, why))
             elif verdict == 'table':
+              for sig in (sig if isinstance(sig, list) else [sig]):     # (a re-raised Err stands for every site that builds it)
                 used[sig] = used.get(sig, 0) + 1
                 mx, reason = PRECONDITIONS[sig]
                 if used[sig] <= mx:
@@ -223,11 +224,33 @@ def _judge(ctx, oa, b, cfg, tr, bi, site, fams):
     if 'begin_panic' in n or 'panicking::' in n or 'panic_fmt' in n or 'assert_failed' in n:
         if is_step:
             g = _panic_guard(oa, b, cfg, tr, bi)
-            if g:
-                return 'table', ('stepping', 'begin_panic', g), ''
+            gs = [g] if g else _err_reraise(ctx, oa, b, cfg, tr, bi)
+            if gs:
+                sigs = []
+                for g in gs:
+                    if g == 'guard:empty-basis':
+                        # the reference tree panics here too, inside Uniform::new(0, 0): unreachable by the same argument
+                        impls = ctx.cg.impls_of('traits::State', 'generate_basis')
+                        for im in impls:
+                            ok, why = _nonempty_basis(ctx, im)
+                            if not ok:
+                                return 'violation', 'optimise_state/panic-on-empty-basis', \
+                                    'panics when generate_basis() is empty, and %s::generate_basis is not shown to return ' \
+                                    'at least one basis (%s)' % (f.norm(im.impl_self_adt), why)
+                        if len(impls) < 2:
+                            return 'violation', 'explicit-panic', 'generate_basis impls not found'
+                    else:
+                        sigs.append(('stepping', 'begin_panic', g))
+                if not sigs:
+                    return 'discharged', 'panic-on-empty-basis-unreachable', \
+                        'guarded by is_empty(generate_basis()), and every generate_basis returns at least one basis'
+                return 'table', (sigs if len(sigs) > 1 else sigs[0]), ''
         uv = _unreachable_by_value(ctx, b, bi)
         if uv:
             return 'discharged', 'explicit-panic-unreachable', uv
+        if _panic_on_unordered(f, b, cfg, tr, bi):
+            # `partial_cmp(..).unwrap_or_else(|| panic!(..))` in Ord::cmp: the unwrap() of the reference tree with a message
+            return 'table', ('ordering', 'Option::unwrap', 'cmp-of-partial_cmp'), ''
         return 'violation', 'explicit-panic', 'an explicit panic!/assert! is reachable and is not one of the tabled sites'
     if 'Option::<T>::expect' in n or 'Option::<T>::unwrap' in n:
         r = _expect_of_uniform_index(b, tr, t)
@@ -444,6 +467,38 @@ def _ptrcheck(b, tr, bi, t):
     return 'violation', 'raw-pointer-dereference', 'a raw pointer is dereferenced and its validity is not established'
 
 
+def _panic_on_unordered(f, b, cfg, tr, bi):
+    """The panic at block bi sits in `Ord::cmp` (or a closure of it spliced in) on the None edge of a switch on the result of
+    partial_cmp(self, other): the reference tree's `partial_cmp(..).unwrap()` spelled with its own message."""
+    owner = b
+    if b.is_closure and b.closure_of:
+        owner = f.body(b.closure_of) or b
+    if not ((owner.impl_trait or '') and f.norm(owner.impl_trait).endswith('cmp::Ord') and owner.fn_name == 'cmp'):
+        return False
+    if b.is_closure:
+        # the closure handed to unwrap_or_else / map_or_else on the partial_cmp result: it only runs for None
+        for _bi, t2 in owner.calls():
+            if call_matches(t2, 'Option::<T>::unwrap_or_else', 'Option::<T>::map_or_else', 'Option::<T>::ok_or_else') and t2['args']:
+                o = Tracer(owner).origin(t2['args'][0])
+                if o['o'] == 'call' and call_matches(o['term'], 'partial_cmp'):
+                    return True
+        return False
+    # in the function itself (a `match` / `let else` / a spliced closure): some dominating switch tests discr(partial_cmp(..))
+    for sb in sorted(cfg.reach):
+        t2 = b.blocks[sb]['term']
+        if t2['t'] != 'switch' or not cfg.dominates(sb, bi):
+            continue
+        o = tr.origin(t2['discr'])
+        if o['o'] == 'rvalue' and o['rv'].get('r') == 'discr':
+            so = tr.origin(dict(o['rv']['place'], k='copy'))
+            if so['o'] == 'call' and call_matches(so['term'], 'partial_cmp'):
+                none_t = [tg for v, tg in t2['arms'] if v == '0']
+                none_t = none_t[0] if none_t else t2['otherwise']
+                if bi in cfg.reachable_from([none_t]):
+                    return True
+    return False
+
+
 def enum_cast_bound(facts, tr, op):
     """(min, max, enum path) of `x as usize` for a value x of a workspace enum: the range of its discriminants."""
     o = tr.origin(op)
@@ -518,10 +573,24 @@ def _returned_array_len(cb):
     return None
 
 
-def debug_only_blocks(b, cfg):
+def debug_only_blocks(b, cfg, facts=None, depth=0):
     """Blocks that only run inside `debug_assert!`-family checks: everything between the `cfg!(debug_assertions)` test the
-    macro expands to and the point where control rejoins, plus any panic site whose macro backtrace names the macro."""
+    macro expands to and the point where control rejoins, plus any panic site whose macro backtrace names the macro.  A closure
+    that is only ever built inside such a region of its parent (`debug_assert!((0..3).all(|c| m[(2, c)] == 0.))`) is
+    debug-only as a whole."""
     out = set()
+    if facts is not None and b.is_closure and depth < 3:
+        sites = []
+        for cb in list(facts.bodies.values()) + list(getattr(facts, 'helpers', {}).values()):
+            for bi2, bb in enumerate(cb.blocks):
+                for st in bb['stmts']:
+                    if st['s'] == 'assign' and st['rv'].get('r') == 'aggr' and st['rv'].get('agg') == 'closure' and \
+                            facts.norm(st['rv']['closure']) == facts.norm(b.path):
+                        sites.append((cb, bi2))
+        if sites:
+            from ..cfg import CFG as _CFG
+            if all(bi2 in debug_only_blocks(cb, _CFG(cb), facts, depth + 1) for cb, bi2 in sites):
+                return set(cfg.reach)
     for bi in cfg.reach:
         t = b.blocks[bi]['term']
         sp = t.get('span') or {}
@@ -1021,8 +1090,111 @@ def _loop_counter(oa, b, cfg, tr, x, bi):
     return None
 
 
+def _must_reach(b, cfg, d, x):
+    """Every normal path from block d runs into block x (x post-dominates d, with x as the only exit of interest)."""
+    seen, stack = set(), [s for s in cfg.succ[d]]
+    while stack:
+        c = stack.pop()
+        if c == x or c in seen:
+            continue
+        seen.add(c)
+        if not cfg.succ[c]:
+            return False            # a return or a diverging block is reachable without passing x
+        stack.extend(cfg.succ[c])
+    return True
+
+
+def _controlling_switch(b, cfg, x):
+    """The branch block x is control dependent on: its nearest dominator that ends in a switch and has a way around x (the
+    level tests of a `warn!` between the branch and x lead to x on both arms and are passed over)."""
+    dom = cfg.dominators()
+    cands = [d for d in dom.get(x, ()) if d != x and b.blocks[d]['term']['t'] == 'switch' and not _must_reach(b, cfg, d, x)]
+    if not cands:
+        return None
+    return max(cands, key=lambda d: len(dom[d]))
+
+
+def _guard_of_switch(oa, b, cfg, tr, p, at):
+    """What the switch ending block p tests, for a panic-like site at block `at` outside the loops: 'guard:initial-score-none' |
+    'guard:final-score-none' | 'guard:empty-basis' | None."""
+    t = b.blocks[p]['term']
+    if t['t'] != 'switch' or cfg.loop_depth(at) != 0:
+        return None
+    o = tr.origin(t['discr'])
+    src = None
+    if o['o'] == 'rvalue' and o['rv']['r'] == 'discr':
+        src = tr.origin({'k': 'copy', 'l': o['rv']['place']['l'], 'p': []})
+    elif o['o'] == 'call' and call_matches(o['term'], 'Option::<T>::is_some', 'Option::<T>::is_none'):
+        src = tr.origin(o['term']['args'][0])
+    elif o['o'] == 'call' and call_matches(o['term'], 'Vec::<T, A>::is_empty', '<impl [T]>::is_empty') and o['term']['args']:
+        so = tr.origin(o['term']['args'][0])
+        if so['o'] == 'call' and is_trait_call(so['term'], 'State', 'generate_basis'):
+            return 'guard:empty-basis'
+    if src and src['o'] == 'call' and is_trait_call(src['term'], 'State', 'score'):
+        outer = oa.outer or oa.inner
+        before = outer['header'] in cfg.reachable_from([p])
+        return 'guard:initial-score-none' if before else 'guard:final-score-none'
+    return None
+
+
+def _err_reraise(ctx, oa, b, cfg, tr, bi):
+    """`match self.try_step(state) { Ok(s) => s, Err(e) => panic!("{}", e) }` with the fallible twin spliced in: the panic
+    re-raises the Err payload of a Result local R.  Every place that builds an Err into R is then the real panic site, and is
+    classified by the branch IT is control dependent on.  Returns a list of guards (one per Err construction), or None."""
+    # the straight-line chain above the panic, up to the first block with several predecessors
+    chain, cur = [bi], bi
+    for _ in range(12):
+        ps = [p for p in cfg.pred[cur] if p in cfg.reach]
+        if len(ps) != 1 or b.blocks[ps[0]]['term']['t'] not in ('goto', 'call'):
+            break
+        cur = ps[0]
+        chain.append(cur)
+    R = None
+    for c in chain:
+        for st in b.blocks[c]['stmts']:
+            if st['s'] == 'assign' and st['rv']['r'] == 'use' and 'l' in st['rv']['a']:
+                pr = st['rv']['a']['p']
+                if len(pr) == 2 and isinstance(pr[0], dict) and pr[0].get('downcast') == 'Err' and \
+                        'result::Result<' in b.local_ty(st['rv']['a']['l']):
+                    R = st['rv']['a']['l']
+    if R is None:
+        return None
+    defs = Defs(b)
+
+    def err_defs(l, depth=0):
+        out = []
+        for d in defs.of(l):
+            if d[2] == 'assign' and d[3]['r'] == 'use' and 'l' in d[3]['a'] and not d[3]['a']['p'] and depth < 4:
+                out.extend(err_defs(d[3]['a']['l'], depth + 1))
+            elif d[2] == 'assign' and d[3]['r'] == 'aggr' and d[3].get('agg') == 'adt':
+                if d[3].get('variant') == 'Err':
+                    out.append(d)
+            else:
+                out.append(None)        # a call or a partial write: where the Err comes from is not visible
+        return out
+    eds = err_defs(R)
+    if not eds or any(d is None for d in eds):
+        return None
+    guards = []
+    for d in eds:
+        p = _controlling_switch(b, cfg, d[0])
+        g = _guard_of_switch(oa, b, cfg, tr, p, d[0]) if p is not None else None
+        if g is None:
+            return None
+        guards.append(g)
+    return guards
+
+
 def _panic_guard(oa, b, cfg, tr, bi):
     """Classify an explicit panic in the stepping function by what it is control dependent on."""
+    g0 = _panic_guard0(oa, b, cfg, tr, bi)
+    if g0:
+        return g0
+    p = _controlling_switch(b, cfg, bi)
+    return _guard_of_switch(oa, b, cfg, tr, p, bi) if p is not None else None
+
+
+def _panic_guard0(oa, b, cfg, tr, bi):
     # the branch the panic is control dependent on: the nearest switch above it (through the straight-line blocks a spliced
     # closure or helper leaves between the branch and the panic)
     cur = bi
